@@ -24,8 +24,8 @@ Bits(n) == [1..n -> {0, 1}]
 MkWord(pairs) == LET RECURSIVE f(_) f(k) == IF k = 0 THEN Zero ELSE SetBitW(f(k - 1), pairs[k][1], pairs[k][2]) IN f(Len(pairs))
 
 MkState(p) ==
-  LET cpsr0 == SetM(SetIT(Zero, IF p.t = 1 THEN p.it ELSE 0), p.mode)
-      cpsr  == MkWord(<< <<5, p.t>>, <<8, p.aif>>, <<7, p.aif>>, <<6, p.aif>>, <<29, 1>>, <<27, 1>>, <<9, p.aif>> >>)
+  LET cpsr0 == SetM(SetIT(Zero, IF p.t >= 1 THEN p.it ELSE 0), p.mode)
+      cpsr  == MkWord(<< <<5, IF p.t >= 1 THEN 1 ELSE 0>>, <<24, IF p.t = 2 THEN 1 ELSE 0>>, <<8, p.aif>>, <<7, p.aif>>, <<6, p.aif>>, <<29, 1>>, <<27, 1>>, <<9, p.aif>> >>)
       c     == WOr(cpsr0, cpsr)
       sctlr == MkWord(<< <<13, p.v>>, <<24, p.ve>>, <<30, p.te>>, <<25, p.ee>> >>)
       scr   == MkWord(<< <<0, p.ns>>, <<3, p.ea>>, <<1, p.irq>>, <<2, p.fiq>>, <<5, p.aw>>, <<4, p.fw>> >>)
@@ -38,7 +38,7 @@ MkState(p) ==
 
 Take(p, s) ==
   CASE p.kind = "Undef"   -> TakeUndefInstr(s)
-    [] p.kind = "SVC"     -> TakeSVC(s, IF p.t = 1 THEN 2 ELSE 4)
+    [] p.kind = "SVC"     -> TakeSVC(s, IF p.t >= 1 THEN 2 ELSE 4)
     [] p.kind = "SMC"     -> TakeSMC(s)
     [] p.kind = "DAbort"  -> TakeDataAbort(s, [alignment |-> p.align = 1, secondstage |-> FALSE])
     [] p.kind = "HypTrap" -> TakeHypTrap(s)
@@ -48,9 +48,11 @@ Take(p, s) ==
 Init == sc = [stage |-> 0] /\ pre = <<>> /\ post = <<>>
 \* stage 1: kind, source mode, extensions, instruction set, IT, PC
 Pick1 == /\ sc.stage = 0
-         /\ \E k \in Kinds, ext \in Exts, t \in {0, 1}, it \in ITs, pc \in PCs :
+         \* t: 0 = ARM, 1 = Thumb, 2 = ThumbEE (J = 1, T = 1: entry clears J and takes T from the controlling TE bit like from Thumb)
+         /\ \E k \in Kinds, ext \in Exts, t \in {0, 1, 2}, it \in ITs, pc \in PCs :
             \E m \in GoodModes([sec |-> ext[1], virt |-> ext[2]]) :
               /\ (k = "SMC" => ext[1]) /\ (k = "HypTrap" => ext[2])
+              /\ (t = 2 => (it = 0 \/ FULL))
               /\ sc' = [stage |-> 1, kind |-> k, mode |-> m, ext |-> ext, t |-> t, it |-> it, pc |-> pc]
          /\ UNCHANGED <<pre, post>>
 \* stage 2: the control bits this kind reads (others fixed at 0)
@@ -108,14 +110,14 @@ TargetOK == Done => TM \in AllowedTargets
 SavedCPSR == IF sc.kind \in {"SVC", "SMC"} THEN SetIT(pre.cpsr, ITAdvance(PIT(pre.cpsr))) ELSE pre.cpsr
 SpsrOK == Done => post.spsr[SpsrName(TM)] = SavedCPSR
 \* return address (table B1-? "offsets from the preferred return address"), ia = pre.R.PC
-RetOff == LET k == sc.kind  th == sc.t = 1 IN
+RetOff == LET k == sc.kind  th == sc.t >= 1 IN
   CASE k = "Undef" -> IF th THEN 2 ELSE 4
     [] k = "SVC"   -> IF th THEN 2 ELSE 4
     [] k = "SMC"   -> 4
     [] k = "DAbort" -> 8
     [] k \in {"IRQ", "FIQ"} -> 4
     [] k = "HypTrap" -> 0
-HypRetOff == LET k == sc.kind  th == sc.t = 1 IN           \* ELR_hyp = preferred return address
+HypRetOff == LET k == sc.kind  th == sc.t >= 1 IN           \* ELR_hyp = preferred return address
   CASE k \in {"Undef", "DAbort", "HypTrap", "IRQ", "FIQ"} -> 0
     [] k = "SVC" -> IF th THEN 2 ELSE 4
 ReturnOK == Done => IF TM = HYP THEN post.elr = AddInt(pre.R.PC, HypRetOff)
